@@ -4,13 +4,14 @@
 cd "$(dirname "$0")/.."
 SCR=${SEED_SCRATCH:-/tmp/seedrepo_$$}
 ids=${@:-$(ls seeded)}
-for id in $ids; do
-  [ -f contracts/$id.py ] || { echo "$id: no check"; continue; }
+for seed in $ids; do
+  id=${seed%[a-z]}          # seeded/C01b is a second seeded change for property C01
+  [ -f contracts/$id.py ] || { echo "$seed: no check"; continue; }
   rm -rf $SCR; mkdir -p $SCR
   (cd /repo && git archive HEAD) | tar -x -C $SCR
-  if ! (cd $SCR && git apply --unsafe-paths --directory=$SCR /verif/seeded/$id/patch.diff 2>/dev/null || patch -s -p1 -d $SCR < seeded/$id/patch.diff); then echo "$id: patch does not apply"; continue; fi
+  if ! (cd $SCR && git apply --unsafe-paths --directory=$SCR /verif/seeded/$seed/patch.diff 2>/dev/null || patch -s -p1 -d $SCR < seeded/$seed/patch.diff); then echo "$seed: patch does not apply"; continue; fi
   out=$(PYVC_REPO=$SCR PYTHONPATH=$SCR PYVC_EVIDENCE_DIR=$SCR/.evidence PYVC_REPLAY_DIR=$SCR/.replays ./check $id 2>&1)
   code=$?
-  echo "$id: exit $code :: $(echo "$out" | grep -m1 '^VIOLATION' | cut -c1-220)"
+  echo "$seed: exit $code :: $(echo "$out" | grep -m1 '^VIOLATION' | cut -c1-220)"
 done
 rm -rf $SCR
